@@ -39,6 +39,16 @@ def run(ctx, replay):
     ctx.overlay_tags.add("c10")
     _fresh_overlay(ctx)
     ctx.tlc("UdpJob", "MC_UdpJob.tla", "MC_batch.cfg", workers=4, timeout=900, heap="6g")
+    # "no held slabs": datagrams larger than the slab's RX buffer (packet kind "trunc") are dropped by their reader and the
+    # slab goes back -- NoHeldSlabs; the twin whose batch reader returns without the release must break it on the model.
+    # The engine walk below sends such datagrams in its load and judges: after the load no more slabs out than the readers
+    # can arm (Go predicate and AllHome on the recorded walk), probes answered, lease count zero after the stop.
+    ctx.tlc("UdpJob", "MC_UdpJob.tla", "MC_trunc.cfg", workers=4, timeout=900, heap="6g")
+    neg = ctx.tlc("UdpJob", "MC_UdpJob.tla", "MC_regress_truncleak.cfg", workers=4, timeout=900, heap="6g", must_pass=False,
+                  tag="regression", count=False)
+    if neg.violated != "NoHeldSlabs":
+        import vf
+        raise vf.MachineryError("MC_regress_truncleak.cfg: expected NoHeldSlabs to fail on the mutant model, got %r" % neg.violated)
     c10.engines(ctx, "[C11, engine walk] ", only=["batch-w1"], secure=False)
     # the request deadline and the straggler interruption behind "in time": LazyDeadline.tla / InterruptGroup.tla
     ctx.overlay_tags.add("x11dl")
